@@ -88,7 +88,7 @@ Proof.
             forall j nd, nth_error (heap g) j = Some nd -> exists nd', nth_error (heap g2) j = Some nd' /\ (~ False -> ctr nd' = ctr nd)).
   { intros g2 E j nd Hj. destruct (E j nd Hj) as [nd' [A [B [C D]]]]. exists nd'. auto. }
   assert (Same : forall (P : Prop), (P <-> P /\ ~ False)) by tauto.
-  destruct s as [c k|c k|c k [b|]|[x|]|[x|]]; cbn [sec_step sec_spec fst removed_by] in *.
+  destruct s as [c k|c k|c k [b|]|[x|]|[x|]|]; cbn [sec_step sec_spec fst removed_by] in *.
   - (* back *)
     destruct (link_back_inv g ids c k G Hk) as (G2 & FL & E & _).
     split; [apply Keep; exact E|].
@@ -143,6 +143,8 @@ Proof.
         -- intros [A B]. split; [exact A|]. apply negb_true_iff. apply Nat.eqb_neq. intro E. apply B. split; [symmetry; exact E|reflexivity].
     + split; [intros j nd Hj; exists nd; auto|].
       intros cur m H. exists m. split; [exact H|]. intros y Hy. split; [intros A; split; [exact A|intros [_ X]; discriminate]|tauto].
+  - split; [intros j nd Hj; exists nd; auto|].
+    intros cur m H. exists m. split; [exact H|]. intros y Hy. tauto.
   - split; [intros j nd Hj; exists nd; auto|].
     intros cur m H. exists m. split; [exact H|]. intros y Hy. tauto.
   - split; [intros j nd Hj; exists nd; auto|].
@@ -231,9 +233,9 @@ Section Trav.
       destruct (other_effect (tg st) (tids st) s G Hok) as (G' & Hlen & Hkeep & Hfl).
       set (gone' := match s with SRemove (Some x) => if is_live (tg st) x then x :: tgone st else tgone st | _ => tgone st end).
       assert (Hsub : forall z, In z (tgone st) -> In z gone').
-      { intros z Hz. subst gone'. destruct s as [| | |[x|]|]; auto. destruct (is_live (tg st) x); [right|]; exact Hz. }
+      { intros z Hz. subst gone'. destruct s as [| | |[x|]| |]; auto. destruct (is_live (tg st) x); [right|]; exact Hz. }
       assert (Hrem : forall z, removed_by s (tg st) z -> In z gone').
-      { intros z Hz. subst gone'. destruct s as [| | |[x|]|]; cbn [removed_by] in Hz; try contradiction.
+      { intros z Hz. subst gone'. destruct s as [| | |[x|]| |]; cbn [removed_by] in Hz; try contradiction.
         destruct Hz as [-> E]. rewrite E. left; reflexivity. }
       assert (Hold : exists m, first_live (heap (tg st)) (tcur st) m) by (eapply first_live_exists; eauto).
       destruct Hold as [m0 Hm0]. destruct (Hfl _ _ Hm0) as (m1 & Hm1 & Heq).
